@@ -436,6 +436,23 @@ impl Bpe {
     }
 }
 
+#[cfg(rten_verif)]
+impl Bpe {
+    /// Verification hook: run the private `bpe_merge` on an explicit merge map
+    /// given as `((first, second), (rank, merged_id))` entries.
+    #[doc(hidden)]
+    pub fn verif_bpe_merge(
+        tokens: &mut Vec<TokenId>,
+        merges: &[((TokenId, TokenId), (u32, TokenId))],
+    ) -> usize {
+        let map: MergeMap = merges
+            .iter()
+            .map(|&(pair, (rank, id))| (pair, (Rank(rank), id)))
+            .collect();
+        bpe_merge(tokens, &map)
+    }
+}
+
 impl Model for Bpe {
     fn get_token_str(&self, id: TokenId) -> Option<String> {
         if let Some(tok_str) = self.added_tokens.get(&id) {
